@@ -53,6 +53,12 @@ def direct(ctx):
             it = sympy.Symbol("it")
             cases.append(("custom.sum", CustomSequence("custom", it * R(d.numerator, d.denominator) + 2, it).get_sum,
                           sum(((i * d + 2) * x for i in range(n)), Fraction(0))))
+            # a term that does not mention the iterator: Σ_{i<n} c·x = n·c·x
+            cases.append(("custom.sum(iterator-free term)", CustomSequence("custom", R(d.numerator, d.denominator) + 2, it).get_sum,
+                          sum(((d + 2) * x for _ in range(n)), Fraction(0))))
+            cases.append(("custom.sum(symbolic iterator-free term)",
+                          (lambda xx, nn, bb, _k=sympy.Symbol("k"): CustomSequence("custom", _k + 1, it).get_sum(xx, nn, bb).subs(_k, R(m.numerator, m.denominator))),
+                          sum(((m + 1) * x for _ in range(n)), Fraction(0))))
             T = sympy.Symbol("T")
             cases.append(("closed_form.sum", ClosedFormSequence("closed_form", T * (T + 1) / 2, None, T).get_sum, x * Fraction(n * (n + 1), 2)))
             for name, fn, exp in cases:
